@@ -221,7 +221,31 @@ def _direction_fails(globs, stats=None):
     w2 = included_real(impl, W, sigma, st)
     if w2 is not None:
         fails.append(("overmatched", w2))
+    # uniformity: whichever reading of '**/' the implementation follows for a leading '**/' (probed on the real
+    # matches()), it has to follow at every segment position
+    if not fails:
+        if zero_dir_policy():
+            U = au.Lang(globlang.build_alt(list(globs), wide=True, unescaped_slash_only=True), "fullmatch")
+            w3 = included_real(U, impl, sigma, st)
+            if w3 is not None:
+                fails.append(("missed-under-its-own-zero-directory-reading", w3))
+        else:
+            w3 = included_real(impl, N, sigma, st)
+            if w3 is not None:
+                fails.append(("overmatched-under-its-own-strict-reading", w3))
     return item, impl, sigma, fails, (N, W)
+
+
+_POLICY: dict = {}
+
+
+def zero_dir_policy() -> bool:
+    """Does the implementation let a leading '**/' stand for zero directories?"""
+    if "v" not in _POLICY:
+        from reuse.global_licensing import AnnotationsItem
+
+        _POLICY["v"] = bool(AnnotationsItem(paths=["**/a"]).matches("a"))
+    return _POLICY["v"]
 
 
 _MIN_CACHE: dict = {}
@@ -348,15 +372,16 @@ def evaluate(case) -> R:
     r.outcome = ("fail:" + ",".join(d for d, _ in fails)) if fails else ("ok-sandwich" if differs else "ok-exact")
     r.counters = {"product_states": st["states"], "product_transitions": st["transitions"]}
     for direction, w in fails:
-        if item.matches(w) != (direction == "overmatched"):
+        if item.matches(w) != direction.startswith("overmatched"):
             raise HarnessError(f"counterexample {w!r} for {globs} not confirmed by matches()")
         on_disk = lint_confirms(globs, w)
         r.validated += 1
-        if on_disk != (direction == "overmatched"):
+        if on_disk != direction.startswith("overmatched"):
             raise HarnessError(f"counterexample {w!r} for {globs}: lint disagrees with matches()")
         sub = minimal_failing(globs[0], direction) if len(globs) == 1 else "|".join(globs)
         nl = "+newline" if "\n" in w else ""
-        want = "must match (narrowest reading)" if direction == "missed" else "must not match (widest reading)"
+        want = {"missed": "must match (narrowest reading)", "overmatched": "must not match (widest reading)"}.get(
+            direction, "is treated differently from the same '**/' at the start of a glob")
         r.violation(f"{direction}{nl}:{sub}",
                     f"glob {globs!r}: path {w!r} {want}, but matches() and lint say {item.matches(w)}",
                     witness=w)
